@@ -50,8 +50,8 @@ def run(ctx, rep):
 
     c = P.fn('state_check_process')
     rep.analysed(c)
-    bad1 = [i for i in c.all_insts() if i.op == 'store' and c.expr(i.ops[1]).endswith('.is_bad') and c.const_of(i.ops[0]) == 1]
-    bad0 = [i for i in c.all_insts() if i.op == 'store' and c.expr(i.ops[1]).endswith('.is_bad') and c.const_of(i.ops[0]) == 0]
+    bad1 = C04.is_bad_sites(P, c, 1)
+    bad0 = C04.is_bad_sites(P, c, 0)
     def registers(call, edge_sel):
         """on the failing edge of `call`, every path to the next disk passes an is_bad=1 store and ++failed_count"""
         for br, ci in C04.cond_branches_on_call(c, call):
@@ -69,10 +69,11 @@ def run(ctx, rep):
     stv = blk_value(P)
     conds = {}
     for s_ in bad0:
-        for a, p in guards_of(c, s_):
-            m = re.match(r'^\(block_state==(\d+)\)$', a.replace(' ', ''))
-            if m and p:
-                conds[int(m.group(1))] = True
+        from ..guards import state_test
+        for a, p in guards_of(c, s_, expand=True):
+            t_ = state_test(a)
+            if t_ and t_[2] == p:
+                conds[t_[1]] = True
     rep.check({stv['CHG'], stv['REP']} <= set(conds) and len(bad0) == 3, 'R-C01-2', 'DELETED, CHG and REP blocks are always registered (not bad)', c.file, 'states registered with is_bad=0: %s' % sorted(conds), function='state_check_process', construct='unsynced entries')
     rep.check(len(list(c.calls('repair'))) == 1, 'R-C01-2', 'every stripe goes through repair()', c.file, '', function='state_check_process', construct='repair call')
     # R-C01-3
